@@ -33,6 +33,10 @@ class Opaque:
         return self.text
 
 
+class Record(dict):
+    """A concrete object given to the interpreter: attribute reads return the entries."""
+
+
 class _Return(Exception):
     def __init__(self, value):
         self.value = value
@@ -359,11 +363,23 @@ class Interp:
             base = self.expr(e.value, env)
             if isinstance(base, Opaque):
                 return Opaque(f"{base.text}.{e.attr}")
+            if isinstance(base, Record) and e.attr in base:
+                return base[e.attr]
             return Opaque(f"{_text(base)}.{e.attr}")
         if isinstance(e, ast.Call):
             return self.call_expr(e, env)
         if isinstance(e, ast.JoinedStr):
-            return Opaque(norm(e))
+            parts = []
+            for v in e.values:
+                if isinstance(v, ast.Constant):
+                    parts.append(str(v.value))
+                    continue
+                val = self.expr(v.value, env) if isinstance(v, ast.FormattedValue) else Opaque("?")
+                if isinstance(v, ast.FormattedValue) and v.format_spec is None and v.conversion == -1 and isinstance(val, (str, int)) and not isinstance(val, bool):
+                    parts.append(str(val))
+                else:
+                    return Opaque(norm(e))
+            return "".join(parts)
         if isinstance(e, (ast.ListComp, ast.GeneratorExp, ast.SetComp)):
             return self.comp(e, env)
         if isinstance(e, ast.DictComp):
@@ -473,6 +489,20 @@ class Interp:
             if not unknown:
                 return False
             raise Undecided(f"minieval: isinstance against {names}")
+        callee = self.globals.get(fn) if isinstance(e.func, ast.Name) else None
+        if isinstance(callee, (ast.FunctionDef,)) and getattr(self, "_depth", 0) < 6:
+            # a function of the analysed package handed in by the rule: interpreted the same way
+            names = [a_.arg for a_ in callee.args.posonlyargs + callee.args.args]
+            bound = dict(zip(names, args))
+            bound.update(kws)
+            self._depth = getattr(self, "_depth", 0) + 1
+            try:
+                kind, val = self.call(callee, bound)
+            finally:
+                self._depth -= 1
+            if kind == "raise":
+                raise _Raise(val)
+            return val
         f = _PURE.get(fn)
         if f is not None and all(_concrete(a) for a in args) and all(_concrete(v) for v in kws.values()):
             try:
@@ -487,7 +517,7 @@ class Interp:
                 if m == "get":
                     return base.get(args[0], args[1] if len(args) > 1 else None)
                 return list(getattr(base, m)())
-            if isinstance(base, str) and m in ("startswith", "endswith", "lower", "upper", "split", "strip") and all(_concrete(a) for a in args):
+            if isinstance(base, str) and m in ("startswith", "endswith", "lower", "upper", "split", "strip", "partition", "rpartition", "removeprefix", "removesuffix", "replace", "find", "isdigit") and all(_concrete(a) for a in args):
                 return getattr(base, m)(*args)
             if isinstance(base, (list, tuple)) and m in ("index", "count") and all(_concrete(a) for a in args) and _concrete(base):
                 try:
